@@ -25,6 +25,25 @@ def removeIfExistsStr (cwd : CPath) (path : Bytes) : Prog Res :=
 def removeFile2Str (cwd : CPath) (path : Bytes) : Prog Res :=
   atPath cwd path (fun e => pure (.error e)) fun p => removeFile2 p
 
+/-- `remove_file_if_exists` on a path resolved beforehand (an unresolvable path does not exist) -/
+def removeIfExistsR (p : Except Errno CPath) : Prog Res :=
+  match p with
+  | .ok q => removeIfExists q
+  | .error _ => pure (.ok ())
+
+/-- `remove_file2` on a path resolved beforehand -/
+def removeFile2R (p : Except Errno CPath) : Prog Res :=
+  match p with
+  | .ok q => removeFile2 q
+  | .error e => pure (.error e)
+
+/-- The resolved-layer core of `CleanableTrashcan.delete_trash_info_and_backup_copy`:
+    the payload first, the info file last. -/
+def purgePair (payload info : Except Errno CPath) : Prog Res := do
+  match ← removeIfExistsR payload with
+  | .error e => pure (.error e)
+  | .ok () => removeFile2R info
+
 /-! ### trash-list -/
 
 inductive Crash where
@@ -103,6 +122,20 @@ def restoreLine (i : Nat) (e : Entry) : Bytes :=
   let n := Bytes.ofNat i
   List.replicate (4 - n.length) 32 ++ n ++ [32] ++ dateStrOpt e.date ++ [32] ++ e.loc
 
+/-- The resolved-layer core of `Restorer.restore_trashed_file`: `fs.move(payload, destination)`,
+    then `fs.remove_file(info)` (errors of either propagate as IOError → Die). -/
+def restoreCore (src dst info : Except Errno CPath) : Prog Res :=
+  match src, dst with
+  | .ok s, .ok d => do
+    match ← move s d with
+    | .error er => pure (.error er)
+    | .ok () =>
+      match info with
+      | .ok i => removeFile i
+      | .error _ => pure (.ok ())
+  | .error er, _ => pure (.error er)
+  | _, .error er => pure (.error er)
+
 /-- `Restorer.restore_trashed_file` -/
 def restoreOne (cwd : CPath) (overwrite : Bool) (e : Entry) : Prog Res := do
   let fs ← read
@@ -117,15 +150,7 @@ def restoreOne (cwd : CPath) (overwrite : Bool) (e : Entry) : Prog Res := do
     | .ok () =>
       let fs ← read
       let payloadStr := pathOfBackupCopy e.info
-      match resolve fs cwd payloadStr, resolve fs cwd e.loc with
-      | .ok src, .ok dst =>
-        match ← move src dst with
-        | .error er => pure (.error er)
-        | .ok () =>
-          -- fs.remove_file(info_file): errors from rmtree propagate as IOError → Die
-          atPath cwd e.info (fun _ => pure (.ok ())) fun p => removeFile p
-      | .error er, _ => pure (.error er)
-      | _, .error er => pure (.error er)
+      restoreCore (resolve fs cwd payloadStr) (resolve fs cwd e.loc) (resolve fs cwd e.info)
 
 def restoreMany (cwd : CPath) (overwrite : Bool) : List Entry → Prog Res
   | [] => pure (.ok ())
@@ -189,14 +214,18 @@ def okToDelete (fs : FS) (cwd : CPath) (o : EmptyOpts) (infoPath : Bytes) : Deci
         | .yes => .delete
         | .no => .keep
 
-/-- what `do_empty` does with one path -/
-def emptyPath (cwd : CPath) (o : EmptyOpts) (path : Bytes) : Prog Unit := do
+/-- what `do_empty` does with one path (resolved when the path is handled) -/
+def emptyPathR (o : EmptyOpts) (path : Bytes) (p : Except Errno CPath) : Prog Unit := do
   if o.dryRun then say (.stdout (b "would remove " ++ path))
   else do
     if o.verbose > 0 then say (.stdout (b "removing " ++ path))
-    match ← removeIfExistsStr cwd path with
+    match ← removeIfExistsR p with
     | .ok () => pure ()
     | .error _ => say (.stderr "cannot-remove" path)
+
+def emptyPath (cwd : CPath) (o : EmptyOpts) (path : Bytes) : Prog Unit := do
+  let fs ← read
+  emptyPathR o path (resolve fs cwd path)
 
 def emptyInfos (cwd : CPath) (o : EmptyOpts) : List Bytes → Prog (Option Crash)
   | [] => pure none
@@ -206,8 +235,9 @@ def emptyInfos (cwd : CPath) (o : EmptyOpts) : List Bytes → Prog (Option Crash
     | .crash c => pure (some c)
     | .keep => emptyInfos cwd o rest
     | .delete => do
-      emptyPath cwd o (pathOfBackupCopy i)
-      emptyPath cwd o i
+      let infoC := resolve fs cwd i
+      emptyPathR o (pathOfBackupCopy i) (resolve fs cwd (pathOfBackupCopy i))
+      emptyPathR o i infoC
       emptyInfos cwd o rest
 
 def emptyPaths (cwd : CPath) (o : EmptyOpts) : List Bytes → Prog Unit
@@ -284,12 +314,9 @@ def rmInfos (cwd : CPath) (pattern volume : Bytes) : List Bytes → Prog (Option
         | none => pure (some .indexError)
         | some false => rmInfos cwd pattern volume rest
         | some true => do
-          match ← removeIfExistsStr cwd (pathOfBackupCopy i) with
+          match ← purgePair (resolve fs cwd (pathOfBackupCopy i)) (resolve fs cwd i) with
           | .error _ => pure (some .osError)
-          | .ok () =>
-            match ← removeFile2Str cwd i with
-            | .error _ => pure (some .osError)
-            | .ok () => rmInfos cwd pattern volume rest
+          | .ok () => rmInfos cwd pattern volume rest
 
 def rmDirs (cwd : CPath) (pattern : Bytes) : List (Bytes × Bytes) → Prog (Option Crash)
   | [] => pure none
